@@ -270,10 +270,11 @@ func performSeek(ctx context.Context, ps Store, memRes []KeyValueExists, rng See
 				var isMem = haveMem && cmpFunc(kvMem.Key, kvPs.Key) < 0
 				if isMem {
 					if kvMem.Exists {
+						memKey := kvMem.Key
 						if cutPrefix {
-							kvMem.Key = kvMem.Key[lPrefix:]
+							memKey = memKey[lPrefix:]
 						}
-						if !cont(kvMem.Key, kvMem.Value) {
+						if !cont(memKey, kvMem.Value) {
 							done = true
 							return false
 						}
